@@ -4,7 +4,7 @@ which bounded exhaustive contracts (BEC) decide it, and what the evidence says a
 TRUSTED = {
     'A1': 'A1 f64 is IEEE-754, total and deterministic: add/sub/mul/div preconditions hold and obeys_*_spec hold for f64 (vstd leaves them undetermined); '
           'float VALUES stay uninterpreted — contracts apply the same operations to the same operands in the same order as the code',
-    'A2': 'A2 ch_width(c) == chw(c) with chw(c) <= len_utf8(c): abstract in Verus, discharged for every char by Kani harness K1 (loop-free, full domain) '
+    'A2': 'A2 ch_width(c) == chw(c) with chw(c) <= len_utf8(c): abstract in Verus, discharged for every char by Kani harness K1 (loop-free, full domain; K1 also checks chw(\' \') == 1, used by C20\'s width theorem) '
           'and by the exhaustive scalar enumeration of BEC contract C10.display_width.scalar',
     'A3': 'A3 allocation bound: a str/String has at most isize::MAX bytes, a Vec at most isize::MAX elements',
     'A4': 'A4 documented std behaviour of the transparent wrappers (vx_* functions whose body is the std call: slicing, find, trim_end_matches, split, '
@@ -58,7 +58,7 @@ TRUSTED = {
 }
 
 K1 = {'name': 'K1.default', 'file': 'k1_ch_width.rs', 'inject': 'src/core.rs', 'features': 'default', 'quick': True, 'timeout': 600,
-      'harnesses': [{'name': 'k1_ch_width_le_len_utf8'}, {'name': 'k1_probe_must_fail'}]}
+      'harnesses': [{'name': 'k1_ch_width_le_len_utf8'}, {'name': 'k1_space_is_one_column'}, {'name': 'k1_probe_must_fail'}]}
 K1MIN = dict(K1, name='K1.no-default-features', features='min')
 K2 = {'name': 'K2.first_fit_n3', 'file': 'k2_first_fit.rs', 'inject': 'src/wrap_algorithms.rs', 'features': 'default', 'quick': False, 'timeout': 1800,
       'harnesses': [{'name': 'k2_first_fit_partition_and_greedy'}], 'bounded': '3 fragments, quarter-integer widths < 4, whitespace/penalty < 2, two line widths < 8'}
@@ -283,11 +283,16 @@ PROPS = {
         'explanation': 'Proof: the postcondition equates indent with the spec function written from the statement (whitespace predicate and split_terminator are the assumed std contracts).',
     },
     'C20': {
-        'units': ['U5'], 'level': 'proof', 'trusted': ['A3', 'A4', 'A11', 'A12', 'R15'],
+        'units': ['U5'], 'level': 'proof', 'kani': [K1, K1MIN], 'trusted': ['A2', 'A3', 'A4', 'A11', 'A12', 'R15'],
         'proved_part': 'Verus, all inputs with columns >= 1 (A11): rows = ceil(|ls|/columns); row r = left ++ PROD_c (cell(r + c*rows) ++ sep_c) ++ right with '
                        'cell(i) = ls[i] ++ spaces(cw - dw(ls[i])) (saturating) or spaces(cw), sep_c the middle gap or the remainder padding after the last column, '
-                       'cw = max(inner/columns, 1), ls = whatever wrap returns at width cw; no panic.',
-        'bounded_part': 'BEC: the same on the real function plus "equal row widths when nothing protrudes".',
-        'explanation': 'Proof: the complete layout is the postcondition of wrap_columns, relative to wrap\'s result (wrap\'s own properties are C01-C09).',
+                       'cw = max(inner/columns, 1), ls = whatever wrap returns at width cw; no panic. Second sentence: theorem c20_equal_row_widths over that layout — when no line is wider than the column '
+                       'and lines and gaps are well-formed (every escape sequence terminated: the texts for which C10 makes display widths additive, lemma dw_concat_wf), every row is exactly '
+                       'dw(left) + dw(right) + (columns-1)*dw(middle) + columns*cw + remainder wide; a wider line makes its row longer by construction of the cell (saturating padding) and the call '
+                       'cannot fail (F5). A space being one column wide is Kani harness K1\'s k1_space_is_one_column (both feature sets).',
+        'bounded_part': 'BEC: the same on the real function plus "equal row widths when nothing protrudes" by execution, including texts with an unterminated escape sequence — where the letter of '
+                        'the second sentence fails (known finding KF7: the open sequence swallows the padding that follows it).',
+        'explanation': 'Proof: the complete layout is the postcondition of wrap_columns, relative to wrap\'s result (wrap\'s own properties are C01-C09); the equal-width sentence is a theorem over '
+                       'that layout for well-formed texts; for texts with an unterminated escape sequence it is false of the pinned code and recorded as KF7.',
     },
 }
